@@ -125,6 +125,12 @@ async def cancel_if_task_exists(task: Optional[Task]):
             await task
         except asyncio.CancelledError:
             logger().debug('Asyncio task cancellation error: %s', task)
+
+            # The caller itself may be the one being cancelled while it waits here:
+            # that request must not be swallowed together with the awaited task's own cancellation.
+            current = asyncio.current_task()
+            if current is not None and getattr(current, 'cancelling', lambda: 0)() > 0:
+                raise
         except Exception:
             logger().warning('Runtime error canceling task: %s', task, exc_info=True)
 
